@@ -1368,7 +1368,7 @@ func verifC36Subsets(p, full, nd, nk int, fn func(dropped []bool)) {
 
 // ---------------------------------------------------------------------------
 
-func verifC36RunChild(t *testing.T, scratch, repoDir, markDir string) (tracePath string, log []verifC36OpLog) {
+func verifC36RunChild(t *testing.T, scratch, repoDir, markDir string, injectWhen int) (tracePath string, log []verifC36OpLog) {
 	strace, err := exec.LookPath("strace")
 	if err != nil {
 		t.Fatalf("C36 infrastructure: strace not available: %v", err)
@@ -1379,8 +1379,11 @@ func verifC36RunChild(t *testing.T, scratch, repoDir, markDir string) (tracePath
 	}
 	tracePath = filepath.Join(scratch, "trace.txt")
 	logPath := filepath.Join(scratch, "child.json")
-	cmd := exec.Command(strace, "-f", "-y", "-qq", "-s", "0", "-e", "trace=%file,%desc", "-e", "signal=none",
-		"-o", tracePath, exe, "-test.run", "^TestVerif_C36$", "-test.count", "1", "-test.timeout", "120s")
+	args := []string{"-f", "-y", "-qq", "-s", "0", "-e", "trace=%file,%desc", "-e", "signal=none"}
+	if injectWhen > 0 {
+		args = append(args, "-e", fmt.Sprintf("inject=fsync,fdatasync:error=EIO:when=%d", injectWhen))
+	}
+	cmd := exec.Command(strace, append(args, "-o", tracePath, exe, "-test.run", "^TestVerif_C36$", "-test.count", "1", "-test.timeout", "120s")...)
 	for _, kv := range os.Environ() {
 		k := strings.SplitN(kv, "=", 2)[0]
 		if strings.HasPrefix(k, "VERIF_") || k == "GODEBUG" {
@@ -1443,323 +1446,360 @@ func TestVerif_C36(t *testing.T) {
 		"weak model: fsync(dir) makes the entries of dir durable and also dir's own entry in its parent (holds on ext4/xfs/btrfs/f2fs; restic never fsyncs the parent of a directory it creates in Save, see notes)",
 		"file modes are not part of the oracle (chmod is replayed in issue order, not dropped independently); Remove is not required to be durable")
 
-	ctx := context.Background()
-	repoDir := filepath.Join(r.Scratch, "repo")
-	markDir := filepath.Join(r.Scratch, verifC36MarkName)
-	work := filepath.Join(r.Scratch, "state")
-	hs := verifC36Handles()
-	hist := verifC36History()
-	for _, d := range []string{repoDir, work} {
-		if _, err := local.Create(ctx, local.Config{Path: d, Connections: 2}, nil); err != nil {
-			t.Fatalf("C36 fixture: local.Create: %v", err)
+	nFsync := 0
+	analyze := func(label string, injectWhen int) {
+		scratch := r.Scratch
+		if label != "" {
+			scratch = filepath.Join(r.Scratch, fmt.Sprintf("inj%02d", injectWhen))
+			if err := os.MkdirAll(scratch, 0o700); err != nil {
+				t.Fatal(err)
+			}
+			defer os.RemoveAll(scratch)
 		}
-		// the sub-directory of C must not exist yet
-		if err := os.Remove(filepath.Join(d, "data", hs[verifC36C].H.Name[:2])); err != nil {
+		ctx := context.Background()
+		repoDir := filepath.Join(scratch, "repo")
+		markDir := filepath.Join(scratch, verifC36MarkName)
+		work := filepath.Join(scratch, "state")
+		hs := verifC36Handles()
+		hist := verifC36History()
+		for _, d := range []string{repoDir, work} {
+			if _, err := local.Create(ctx, local.Config{Path: d, Connections: 2}, nil); err != nil {
+				t.Fatalf("C36 fixture: local.Create: %v", err)
+			}
+			// the sub-directory of C must not exist yet
+			if err := os.Remove(filepath.Join(d, "data", hs[verifC36C].H.Name[:2])); err != nil {
+				t.Fatalf("C36 fixture: %v", err)
+			}
+		}
+		tr := &verifC36Trace{root: repoDir, baseDirs: map[int]map[string]int{}, isDir: map[int]bool{}, dirPath: map[int]string{},
+			mkdirOf: map[int]int{}, creMode: map[int]uint32{}, live: map[int]map[string]int{}, fds: map[int]*verifC36Fd{}, curOp: -1,
+			hs: hs, hist: hist, chunk: chunk, hashes: map[string][32]byte{}}
+		if err := tr.walkInitial(); err != nil {
 			t.Fatalf("C36 fixture: %v", err)
 		}
-	}
-	tr := &verifC36Trace{root: repoDir, baseDirs: map[int]map[string]int{}, isDir: map[int]bool{}, dirPath: map[int]string{},
-		mkdirOf: map[int]int{}, creMode: map[int]uint32{}, live: map[int]map[string]int{}, fds: map[int]*verifC36Fd{}, curOp: -1,
-		hs: hs, hist: hist, chunk: chunk, hashes: map[string][32]byte{}}
-	if err := tr.walkInitial(); err != nil {
-		t.Fatalf("C36 fixture: %v", err)
-	}
 
-	tracePath, childLog := verifC36RunChild(t, r.Scratch, repoDir, markDir)
-	if err := tr.parseTrace(tracePath, markDir); err != nil {
-		t.Fatalf("C36 infrastructure: trace model incomplete: %v", err)
-	}
-	if os.Getenv("VERIF_C36_DUMP") != "" {
-		for i, u := range tr.upd {
-			t.Logf("upd %3d op=%2d %s", i, u.Op, u.Text)
+		tracePath, childLog := verifC36RunChild(t, scratch, repoDir, markDir, injectWhen)
+		if err := tr.parseTrace(tracePath, markDir); err != nil {
+			t.Fatalf("C36 infrastructure: trace model incomplete: %v", err)
 		}
-	}
-	N := len(tr.upd)
-
-	// every operation of the history must have succeeded and been delimited
-	if len(childLog) != len(hist) {
-		t.Fatalf("C36 infrastructure: child ran %d of %d operations", len(childLog), len(hist))
-	}
-	marks := 0
-	for _, u := range tr.upd {
-		if u.Kind == verifC36KMark {
-			marks++
-		}
-	}
-	for i, l := range childLog {
-		if l.Err != "" {
-			t.Fatalf("C36 fixture: operation %s (%d) failed in the traced run: %s", l.Op, i, l.Err)
-		}
-	}
-	if marks != 2*len(hist) {
-		t.Fatalf("C36 infrastructure: %d markers in the trace, expected %d", marks, 2*len(hist))
-	}
-
-	// self-check: replaying everything reproduces the real final directory
-	all := func(int) bool { return true }
-	finalEnts := tr.entries(tr.build(N, all))
-	{
-		want := map[string]string{}
-		for _, p := range tr.dirPath {
-			if p != "" {
-				want[p+"/"] = "dir"
-			} else {
-				want["./"] = "dir"
+		if os.Getenv("VERIF_C36_DUMP") != "" {
+			for i, u := range tr.upd {
+				t.Logf("upd %3d op=%2d %s", i, u.Op, u.Text)
 			}
 		}
-		for _, e := range finalEnts {
-			if e.Dir {
-				want[e.Path+"/"] = "dir"
+		N := len(tr.upd)
+
+		// every operation of the history must have succeeded and been delimited
+		if len(childLog) != len(hist) {
+			t.Fatalf("C36 infrastructure: child ran %d of %d operations", len(childLog), len(hist))
+		}
+		marks := 0
+		for _, u := range tr.upd {
+			if u.Kind == verifC36KMark {
+				marks++
+			}
+		}
+		failedOps := 0
+		for i, l := range childLog {
+			if l.Err != "" {
+				if injectWhen == 0 {
+					t.Fatalf("C36 fixture: operation %s (%d) failed in the traced run: %s", l.Op, i, l.Err)
+				}
+				failedOps++ // an injected fsync failure: the operation reports an error and is not acknowledged
+			}
+		}
+		if marks != 2*len(hist)-failedOps {
+			t.Fatalf("C36 infrastructure: %d markers in the trace, expected %d", marks, 2*len(hist)-failedOps)
+		}
+		if injectWhen > 0 {
+			r.Outcome(fmt.Sprintf("fsync #%d fails with EIO: %d operation(s) reported an error", injectWhen, failedOps))
+		}
+
+		// self-check: replaying everything reproduces the real final directory
+		all := func(int) bool { return true }
+		finalEnts := tr.entries(tr.build(N, all))
+		{
+			want := map[string]string{}
+			for _, p := range tr.dirPath {
+				if p != "" {
+					want[p+"/"] = "dir"
+				} else {
+					want["./"] = "dir"
+				}
+			}
+			for _, e := range finalEnts {
+				if e.Dir {
+					want[e.Path+"/"] = "dir"
+					continue
+				}
+				h := tr.hash(e.Ino, e.Ops)
+				want[e.Path] = fmt.Sprintf("%s mode=%04o", hex.EncodeToString(h[:8]), e.Mode)
+			}
+			got, err := verifC36RealTree(repoDir)
+			if err != nil {
+				t.Fatalf("C36 infrastructure: %v", err)
+			}
+			for k, v := range got {
+				if want[k] != v {
+					t.Fatalf("C36 infrastructure: trace model does not reproduce the real final directory: %s is %q, model says %q", k, v, want[k])
+				}
+			}
+			for k, v := range want {
+				if got[k] != v {
+					t.Fatalf("C36 infrastructure: trace model does not reproduce the real final directory: model has %s = %q, real %q", k, v, got[k])
+				}
+			}
+		}
+		initialKey := tr.key(tr.entries(tr.build(0, all)))
+		finalKey := tr.key(finalEnts)
+		r.Trace(1)
+
+		// shape of the trace, for the evidence
+		kinds := map[int]int{}
+		for _, u := range tr.upd {
+			kinds[u.Kind]++
+		}
+		if injectWhen == 0 {
+			nFsync = kinds[verifC36KFsync]
+		}
+		r.Extra(label+"trace_updates", fmt.Sprintf("%d updates: create=%d mkdir=%d write=%d setsize=%d rename=%d unlink=%d chmod=%d fsync=%d marker=%d", N,
+			kinds[verifC36KCreate], kinds[verifC36KMkdir], kinds[verifC36KWrite], kinds[verifC36KSetSize], kinds[verifC36KRename],
+			kinds[verifC36KUnlink], kinds[verifC36KChmod], kinds[verifC36KFsync], kinds[verifC36KMark]))
+		for idx, u := range tr.upd {
+			if u.Kind != verifC36KMkdir {
 				continue
 			}
-			h := tr.hash(e.Ino, e.Ops)
-			want[e.Path] = fmt.Sprintf("%s mode=%04o", hex.EncodeToString(h[:8]), e.Mode)
-		}
-		got, err := verifC36RealTree(repoDir)
-		if err != nil {
-			t.Fatalf("C36 infrastructure: %v", err)
-		}
-		for k, v := range got {
-			if want[k] != v {
-				t.Fatalf("C36 infrastructure: trace model does not reproduce the real final directory: %s is %q, model says %q", k, v, want[k])
+			parentSynced := false
+			for j := idx + 1; j < N; j++ {
+				if tr.upd[j].Kind == verifC36KFsync && tr.upd[j].Ino == u.Dir {
+					parentSynced = true
+				}
+			}
+			if !parentSynced {
+				r.Note("%s (update %d) is never followed by an fsync of its parent directory; under a model in which fsync(dir) does not persist dir's own entry the acknowledged Save into it could be lost; not counted (outside the statement; assumption 3)", u.Text, idx)
 			}
 		}
-		for k, v := range want {
-			if got[k] != v {
-				t.Fatalf("C36 infrastructure: trace model does not reproduce the real final directory: model has %s = %q, real %q", k, v, got[k])
-			}
-		}
-	}
-	initialKey := tr.key(tr.entries(tr.build(0, all)))
-	finalKey := tr.key(finalEnts)
-	r.Trace(1)
 
-	// shape of the trace, for the evidence
-	kinds := map[int]int{}
-	for _, u := range tr.upd {
-		kinds[u.Kind]++
-	}
-	r.Extra("trace_updates", fmt.Sprintf("%d updates: create=%d mkdir=%d write=%d setsize=%d rename=%d unlink=%d chmod=%d fsync=%d marker=%d", N,
-		kinds[verifC36KCreate], kinds[verifC36KMkdir], kinds[verifC36KWrite], kinds[verifC36KSetSize], kinds[verifC36KRename],
-		kinds[verifC36KUnlink], kinds[verifC36KChmod], kinds[verifC36KFsync], kinds[verifC36KMark]))
-	for idx, u := range tr.upd {
-		if u.Kind != verifC36KMkdir {
-			continue
-		}
-		parentSynced := false
-		for j := idx + 1; j < N; j++ {
-			if tr.upd[j].Kind == verifC36KFsync && tr.upd[j].Ino == u.Dir {
-				parentSynced = true
-			}
-		}
-		if !parentSynced {
-			r.Note("%s (update %d) is never followed by an fsync of its parent directory; under a model in which fsync(dir) does not persist dir's own entry the acknowledged Save into it could be lost; not counted (outside the statement; assumption 3)", u.Text, idx)
-		}
-	}
-
-	// live List results of the traced run (no crash): exactly the acknowledged, not removed names
-	{
-		present := map[int]bool{}
-		for i, op := range hist {
-			switch op.Kind {
-			case "save":
-				present[op.H] = true
-			case "remove":
-				delete(present, op.H)
-			case "list":
-				var want []string
-				for h := range present {
-					if hs[h].H.Type == op.T {
-						want = append(want, hs[h].H.Name)
+		// live List results of the traced run (no crash): exactly the acknowledged, not removed names
+		// (not with an injected fsync failure: a Save that failed at the directory fsync has already published
+		// its - complete - file)
+		if injectWhen == 0 {
+			present := map[int]bool{}
+			for i, op := range hist {
+				switch op.Kind {
+				case "save":
+					present[op.H] = true
+				case "remove":
+					delete(present, op.H)
+				case "list":
+					var want []string
+					for h := range present {
+						if hs[h].H.Type == op.T {
+							want = append(want, hs[h].H.Name)
+						}
+					}
+					sort.Strings(want)
+					if strings.Join(want, ",") != strings.Join(childLog[i].List, ",") {
+						r.Violationf("", "C36|"+label+"live|list-mismatch|"+op.label(i, hs), childLog[i], "List during the traced run returned %v, expected exactly %v", childLog[i].List, want)
 					}
 				}
-				sort.Strings(want)
-				if strings.Join(want, ",") != strings.Join(childLog[i].List, ",") {
-					r.Violationf("", "C36|live|list-mismatch|"+op.label(i, hs), childLog[i], "List during the traced run returned %v, expected exactly %v", childLog[i].List, want)
+			}
+		}
+
+		// update u is durable at crash point i  <=>  covered[u] < i  (index of the fsync that completes its
+		// coverage, N+1 if none)
+		firstSync := func(after int, match func(su *verifC36Upd) bool) int {
+			for s := after + 1; s < N; s++ {
+				if su := &tr.upd[s]; su.Kind == verifC36KFsync && match(su) {
+					return s
 				}
 			}
+			return N + 1
 		}
-	}
-
-	// update u is durable at crash point i  <=>  covered[u] < i  (index of the fsync that completes its
-	// coverage, N+1 if none)
-	firstSync := func(after int, match func(su *verifC36Upd) bool) int {
-		for s := after + 1; s < N; s++ {
-			if su := &tr.upd[s]; su.Kind == verifC36KFsync && match(su) {
-				return s
-			}
-		}
-		return N + 1
-	}
-	covered := make([]int, N)
-	for u := range tr.upd {
-		covered[u] = N + 1
-		uu := &tr.upd[u]
-		dirSync := func(d int) int {
-			return firstSync(u, func(su *verifC36Upd) bool { return su.DirSync && su.Ino == d })
-		}
-		switch uu.Kind {
-		case verifC36KWrite, verifC36KSetSize:
-			covered[u] = firstSync(u, func(su *verifC36Upd) bool { return !su.DirSync && su.Ino == uu.Ino })
-		case verifC36KCreate, verifC36KUnlink:
-			covered[u] = dirSync(uu.Dir)
-		case verifC36KMkdir:
-			// assumption 3: an fsync of the new directory itself also persists its entry in the parent
-			covered[u] = min(dirSync(uu.Dir), dirSync(uu.Ino))
-		case verifC36KRename:
-			covered[u] = max(dirSync(uu.Dir), dirSync(uu.Dir2))
-		}
-	}
-
-	describe := func(upto int, keep func(int) bool) []string {
-		var out []string
-		for idx := 0; idx < upto; idx++ {
-			u := &tr.upd[idx]
-			flag := "kept   "
-			if !u.mutating() {
-				flag = "       "
-			} else if !keep(idx) {
-				flag = "DROPPED"
-			}
-			out = append(out, fmt.Sprintf("%3d %s %s", idx, flag, u.Text))
-		}
-		return out
-	}
-
-	samples := map[string]int{}
-	evaluate := func(caseKey, model string, i int, seen map[string]bool, exp []verifC36Expect, during string, keep func(int) bool, variant string, sample bool) {
-		r.Count("crash_states_enumerated", 1)
-		st := tr.build(i, keep)
-		ents := tr.entries(st)
-		key := tr.key(ents)
-		if seen[key] {
-			return
-		}
-		seen[key] = true
-		cleanup, err := tr.materialise(work, ents)
-		if err != nil {
-			t.Fatalf("C36 infrastructure: cannot materialise crash state: %v", err)
-		}
-		var probs []verifC36Problem
-		var outcome string
-		panicked, msg := vh.NoPanic(func() { probs, outcome = verifC36Check(work, hs, exp) })
-		cleanup()
-		r.Eval(1)
-		r.Transition(int64(st.kept))
-		r.State(key)
-		r.Count("states_"+model, 1)
-		if key != initialKey && key != finalKey {
-			r.Nontrivial(key)
-		}
-		r.Outcome(outcome)
-		if panicked {
-			probs = append(probs, verifC36Problem{Kind: "panic", Handle: "-", What: "restic panicked on the crash state: " + msg})
-		}
-		if sample && samples[model] < 2 {
-			samples[model]++
-			r.Sample(map[string]any{"model": model, "crash_point": i, "during": during, "state": key, "outcome": outcome, "expect": verifC36ExpectString(hs, exp)})
-		}
-		for _, p := range probs {
-			var files []string
-			for _, e := range ents {
-				if e.Dir {
-					files = append(files, e.Path+"/")
-				} else {
-					files = append(files, fmt.Sprintf("%s (%d bytes)", e.Path, len(tr.content(e.Ops))))
-				}
-			}
-			detail := map[string]any{"model": model, "crash_point": i, "during": during, "variant": variant,
-				"expect": verifC36ExpectString(hs, exp), "outcome": outcome, "files_in_crash_state": files, "updates": describe(i, keep)}
-			r.Violationf(caseKey, fmt.Sprintf("C36|%s|%s|%s", model, p.Kind, p.Handle), detail,
-				"%s model, crash %s (after update %d of %d): %s", model, during, i, N, p.What)
-		}
-	}
-
-	// ---- ordered model
-	for i := 0; i <= N; i++ {
-		ck := fmt.Sprintf("ordered|i=%d", i)
-		if !r.Case(ck) {
-			continue
-		}
-		if r.Expired() {
-			break
-		}
-		barrier := 0
-		for s := 0; s < i; s++ {
-			if tr.upd[s].Kind == verifC36KFsync {
-				barrier = s + 1
-			}
-		}
-		exp, during := tr.expect(i)
-		seen := map[string]bool{}
-		for j := barrier; j <= i; j++ {
-			jj := j
-			evaluate(ck, "ordered", i, seen, exp, during, func(idx int) bool { return idx < jj }, fmt.Sprintf("prefix j=%d", j), j < i && j > barrier)
-		}
-	}
-
-	// ---- weak model (crash points with many subsets are split into parts so that shards stay balanced)
-	maxPending := 0
-	for i := 0; i <= N; i++ {
-		var pend []int
-		for u := 0; u < i; u++ {
+		covered := make([]int, N)
+		for u := range tr.upd {
+			covered[u] = N + 1
 			uu := &tr.upd[u]
-			if !uu.mutating() || uu.Kind == verifC36KChmod {
-				continue
+			dirSync := func(d int) int {
+				return firstSync(u, func(su *verifC36Upd) bool { return su.DirSync && su.Ino == d })
 			}
-			if covered[u] >= i {
-				pend = append(pend, u)
+			switch uu.Kind {
+			case verifC36KWrite, verifC36KSetSize:
+				covered[u] = firstSync(u, func(su *verifC36Upd) bool { return !su.DirSync && su.Ino == uu.Ino })
+			case verifC36KCreate, verifC36KUnlink:
+				covered[u] = dirSync(uu.Dir)
+			case verifC36KMkdir:
+				// assumption 3: an fsync of the new directory itself also persists its entry in the parent
+				covered[u] = min(dirSync(uu.Dir), dirSync(uu.Ino))
+			case verifC36KRename:
+				covered[u] = max(dirSync(uu.Dir), dirSync(uu.Dir2))
 			}
 		}
-		pos := map[int]int{}
-		for k, u := range pend {
-			pos[u] = k
+
+		describe := func(upto int, keep func(int) bool) []string {
+			var out []string
+			for idx := 0; idx < upto; idx++ {
+				u := &tr.upd[idx]
+				flag := "kept   "
+				if !u.mutating() {
+					flag = "       "
+				} else if !keep(idx) {
+					flag = "DROPPED"
+				}
+				out = append(out, fmt.Sprintf("%3d %s %s", idx, flag, u.Text))
+			}
+			return out
 		}
-		total := 0
-		verifC36Subsets(len(pend), full, nd, nk, func([]bool) { total++ })
-		parts := 1
-		if total > 512 {
-			parts = 16
+
+		samples := map[string]int{}
+		evaluate := func(caseKey, model string, i int, seen map[string]bool, exp []verifC36Expect, during string, keep func(int) bool, variant string, sample bool) {
+			r.Count("crash_states_enumerated", 1)
+			st := tr.build(i, keep)
+			ents := tr.entries(st)
+			key := tr.key(ents)
+			if seen[key] {
+				return
+			}
+			seen[key] = true
+			cleanup, err := tr.materialise(work, ents)
+			if err != nil {
+				t.Fatalf("C36 infrastructure: cannot materialise crash state: %v", err)
+			}
+			var probs []verifC36Problem
+			var outcome string
+			panicked, msg := vh.NoPanic(func() { probs, outcome = verifC36Check(work, hs, exp) })
+			cleanup()
+			r.Eval(1)
+			r.Transition(int64(st.kept))
+			r.State(key)
+			r.Count("states_"+model, 1)
+			if key != initialKey && key != finalKey {
+				r.Nontrivial(key)
+			}
+			r.Outcome(outcome)
+			if panicked {
+				probs = append(probs, verifC36Problem{Kind: "panic", Handle: "-", What: "restic panicked on the crash state: " + msg})
+			}
+			if sample && samples[model] < 2 {
+				samples[model]++
+				r.Sample(map[string]any{"model": model, "crash_point": i, "during": during, "state": key, "outcome": outcome, "expect": verifC36ExpectString(hs, exp)})
+			}
+			for _, p := range probs {
+				var files []string
+				for _, e := range ents {
+					if e.Dir {
+						files = append(files, e.Path+"/")
+					} else {
+						files = append(files, fmt.Sprintf("%s (%d bytes)", e.Path, len(tr.content(e.Ops))))
+					}
+				}
+				detail := map[string]any{"model": model, "crash_point": i, "during": during, "variant": variant,
+					"expect": verifC36ExpectString(hs, exp), "outcome": outcome, "files_in_crash_state": files, "updates": describe(i, keep)}
+				r.Violationf(caseKey, fmt.Sprintf("C36|%s%s|%s|%s", label, model, p.Kind, p.Handle), detail,
+					"%s model, crash %s (after update %d of %d): %s", model, during, i, N, p.What)
+			}
 		}
-		if len(pend) > full && r.Case(fmt.Sprintf("weak|i=%d|part=0/%d", i, parts)) {
-			r.Count("crash_points_with_bounded_subsets", 1)
-		}
-		exp, during := tr.expect(i)
-		for part := 0; part < parts; part++ {
-			ck := fmt.Sprintf("weak|i=%d|part=%d/%d", i, part, parts)
+
+		// ---- ordered model
+		for i := 0; i <= N; i++ {
+			ck := fmt.Sprintf("%sordered|i=%d", label, i)
 			if !r.Case(ck) {
 				continue
 			}
 			if r.Expired() {
 				break
 			}
-			if len(pend) > maxPending {
-				maxPending = len(pend)
+			barrier := 0
+			for s := 0; s < i; s++ {
+				if tr.upd[s].Kind == verifC36KFsync {
+					barrier = s + 1
+				}
 			}
+			exp, during := tr.expect(i)
 			seen := map[string]bool{}
-			n := -1
-			verifC36Subsets(len(pend), full, nd, nk, func(dropped []bool) {
-				n++
-				if n%parts != part || (n&255 == 255 && r.Expired()) {
-					return
+			for j := barrier; j <= i; j++ {
+				jj := j
+				evaluate(ck, "ordered", i, seen, exp, during, func(idx int) bool { return idx < jj }, fmt.Sprintf("prefix j=%d", j), j < i && j > barrier)
+			}
+		}
+
+		// ---- weak model (crash points with many subsets are split into parts so that shards stay balanced)
+		maxPending := 0
+		for i := 0; i <= N; i++ {
+			var pend []int
+			for u := 0; u < i; u++ {
+				uu := &tr.upd[u]
+				if !uu.mutating() || uu.Kind == verifC36KChmod {
+					continue
 				}
-				keep := func(idx int) bool {
-					if k, ok := pos[idx]; ok {
-						return !dropped[k]
+				if covered[u] >= i {
+					pend = append(pend, u)
+				}
+			}
+			pos := map[int]int{}
+			for k, u := range pend {
+				pos[u] = k
+			}
+			total := 0
+			verifC36Subsets(len(pend), full, nd, nk, func([]bool) { total++ })
+			parts := 1
+			if total > 512 {
+				parts = 16
+			}
+			if len(pend) > full && r.Case(fmt.Sprintf("%sweak|i=%d|part=0/%d", label, i, parts)) {
+				r.Count("crash_points_with_bounded_subsets", 1)
+			}
+			exp, during := tr.expect(i)
+			for part := 0; part < parts; part++ {
+				ck := fmt.Sprintf("%sweak|i=%d|part=%d/%d", label, i, part, parts)
+				if !r.Case(ck) {
+					continue
+				}
+				if r.Expired() {
+					break
+				}
+				if len(pend) > maxPending {
+					maxPending = len(pend)
+				}
+				seen := map[string]bool{}
+				n := -1
+				verifC36Subsets(len(pend), full, nd, nk, func(dropped []bool) {
+					n++
+					if n%parts != part || (n&255 == 255 && r.Expired()) {
+						return
 					}
-					return true
-				}
-				var d []string
-				for k, u := range pend {
-					if dropped[k] {
-						d = append(d, strconv.Itoa(u))
+					keep := func(idx int) bool {
+						if k, ok := pos[idx]; ok {
+							return !dropped[k]
+						}
+						return true
 					}
-				}
-				evaluate(ck, "weak", i, seen, exp, during, keep, "dropped updates ["+strings.Join(d, ",")+"]", len(d) > 0 && i > N/3)
-			})
+					var d []string
+					for k, u := range pend {
+						if dropped[k] {
+							d = append(d, strconv.Itoa(u))
+						}
+					}
+					evaluate(ck, "weak", i, seen, exp, during, keep, "dropped updates ["+strings.Join(d, ",")+"]", len(d) > 0 && i > N/3)
+				})
+			}
+		}
+		if maxPending > 0 {
+			r.Count(fmt.Sprintf("crash_points_shard_max_pending_%02d", maxPending), 1)
 		}
 	}
-	if maxPending > 0 {
-		r.Count(fmt.Sprintf("crash_points_shard_max_pending_%02d", maxPending), 1)
+	analyze("", 0)
+	// the same history with the k-th fsync/fdatasync of the process failing with EIO (strace fault injection):
+	// the Save that meets it must not be acknowledged with unsynced data under its final name
+	injected := nFsync
+	if !r.Thorough() && injected > 6 {
+		injected = 6 // quick: the fsyncs of the first three Saves
 	}
+	for k := 1; k <= injected; k++ {
+		if r.Expired() {
+			break
+		}
+		analyze(fmt.Sprintf("fsync#%d-fails|", k), k)
+	}
+	r.Extra("fsync_failures_injected", injected)
 }
